@@ -214,6 +214,22 @@ def bounded(ctx, real, rng):
         model = []          # per paragraph: glob list (Files) or None (License)
         objs = []
         ops = []
+        if rng.random() < 0.35:
+            # a parsed document: Files and stand-alone License paragraphs in ANY order (a License paragraph may come first)
+            legal = [g for g in globsets if not illegal(g)]
+            kinds = [rng.choice(["F", "F", "L"]) for _ in range(rng.randint(1, 5))]
+            text = "Format: https://www.debian.org/doc/packaging-manuals/copyright-format/1.0/\n"
+            for kd in kinds:
+                if kd == "F":
+                    gs = rng.choice(legal)
+                    text += "\nFiles: %s\nCopyright: c\nLicense: L\n" % " ".join(gs)
+                    model.append(list(gs))
+                else:
+                    text += "\nLicense: X\n text\n"
+                    model.append(None)
+            c = real.Copyright(text.splitlines(True))
+            objs = list(c.all_paragraphs())[1:]          # without the header paragraph
+            ops.append(["parsed", text])
         for step in range(rng.randint(2, 7)):
             op = rng.choice(["addf", "addf", "addl", "query", "query", "setfiles"])
             if op == "addf":
